@@ -15,7 +15,8 @@ from .source import AnalysisError, norm, dotted, const_str, raised_classes
 from .cfg import Flow
 
 UNK = '?'
-STR_METHODS = {'lower', 'upper', 'strip', 'lstrip', 'rstrip', 'replace', 'join', 'format', 'title', 'capitalize'}
+STR_METHODS = {'lower', 'upper', 'strip', 'lstrip', 'rstrip', 'replace', 'join', 'format', 'title', 'capitalize', 'ljust', 'rjust', 'center', 'casefold', 'swapcase',
+               'expandtabs', 'removeprefix', 'removesuffix', 'translate', 'zfill'}
 BUILTIN_ATTRS = {
     'str': STR_METHODS | {'split', 'startswith', 'endswith', 'isdigit', 'find', 'index', 'count', 'encode', 'splitlines',
                           'isalpha', 'isupper', 'islower', 'partition', 'rsplit', 'zfill', 'isidentifier'},
@@ -24,6 +25,9 @@ BUILTIN_ATTRS = {
     'tuple': {'index', 'count'},
     'int': {'bit_length'}, 'float': {'is_integer'}, 'bool': set(), 'None': set(),
 }
+# which attributes exist is a fact about the builtin types themselves
+for _k, _t in (('str', str), ('list', list), ('dict', dict), ('tuple', tuple), ('int', int), ('float', float)):
+    BUILTIN_ATTRS[_k] = set(BUILTIN_ATTRS[_k]) | {m for m in dir(_t) if not m.startswith('_')}
 
 
 class V:
@@ -582,7 +586,7 @@ class ActionKinds:
                     return vk('str')
                 if m in ('split', 'splitlines', 'rsplit'):
                     return V(['list'], vk('str'), nonempty=True)
-                if m in ('startswith', 'endswith', 'isdigit', 'isalpha'):
+                if m in ('startswith', 'endswith') or m.startswith('is'):
                     return vk('bool')
             if 'dict' in base.kinds:
                 if m == 'get':
@@ -678,6 +682,28 @@ class ActionKinds:
                         if keep:
                             return setn(gen.iter, V(cur.kinds, V(keep, el.elem, el.keys, el.nonempty), cur.keys, cur.nonempty))
             return st
+        if isinstance(test, ast.Call) and isinstance(test.func, ast.Name) and test.func.id in self.module_funcs and len(test.args) == 1 and not test.keywords and branch:
+            # a type predicate: a helper `def f(x)` that answers True only for instances of some classes - every path to a true result passes
+            # `if not isinstance(x, C): return False` (guard form) or the result is `isinstance(x, C) and ...`
+            hf = self.module_funcs[test.func.id][1]
+            if len(hf.args.args) == 1:
+                par = hf.args.args[0].arg
+                guard = None
+                for st_ in hf.body:
+                    if isinstance(st_, (ast.Import, ast.ImportFrom)) or (isinstance(st_, ast.Expr) and isinstance(st_.value, ast.Constant)):
+                        continue
+                    t_ = None
+                    if isinstance(st_, ast.If) and not st_.orelse and len(st_.body) == 1 and isinstance(st_.body[0], ast.Return) \
+                            and isinstance(st_.body[0].value, ast.Constant) and st_.body[0].value.value is False \
+                            and isinstance(st_.test, ast.UnaryOp) and isinstance(st_.test.op, ast.Not):
+                        t_ = st_.test.operand
+                    elif isinstance(st_, ast.Return) and isinstance(st_.value, ast.BoolOp) and isinstance(st_.value.op, ast.And):
+                        t_ = st_.value.values[0]
+                    if isinstance(t_, ast.Call) and dotted(t_.func) == 'isinstance' and len(t_.args) == 2 and isinstance(t_.args[0], ast.Name) and t_.args[0].id == par:
+                        guard = t_
+                    break
+                if guard is not None:
+                    return self.narrow(ast.Call(func=ast.Name(id='isinstance', ctx=ast.Load()), args=[test.args[0], guard.args[1]], keywords=[]), st, True, prod, pvar)
         if isinstance(test, ast.Call) and dotted(test.func) == 'isinstance' and len(test.args) == 2:
             cur = self.ev(test.args[0], st, prod, pvar, None)
             ts = test.args[1].elts if isinstance(test.args[1], ast.Tuple) else [test.args[1]]
